@@ -30,7 +30,7 @@ def grid(name, tier):
     if tier == 'quick':
         keep = []
         for label, cfg in pts:
-            if label in ('base', 'default', 'default-s256') or label[:-1] in ('B', 'b', 'quad', 'L', 'ratio', 's', 'dict', 'max') or label in ('id1', 'key0'):
+            if label in ('base', 'default', 'default-s256') or label[:-1] in ('B', 'b', 'quad', 'L', 'ratio', 's', 'dict', 'max', 'id') or label in ('key0', 'l2', 'nx0'):
                 keep.append((label, cfg))
         pts = keep
     return pts
@@ -60,6 +60,7 @@ def units(tier, seed):
     for name in sse.SCHEMES:
         for label, cfg in grid(name, tier):
             us.append(('%s/%s' % (name, label), {'scheme': name, 'label': label, 'cfg': cfg}))
+        us.append(('sweep/%s' % name, {'sweep': name}))
     return us
 
 
@@ -121,10 +122,24 @@ def run_profile(r, seed, name, label, cfg, prof, variant):
 
 def run_unit(p, tier, seed):
     r = core.Result()
+    if 'sweep' in p:
+        # every configuration point of the scheme in ONE process, forwards then backwards, a small profile set each: state that
+        # outlives a configuration object (module-level caches keyed too coarsely) is carried from one point to the next
+        pts = grid(p['sweep'], tier)
+        for seq in (pts, pts[::-1]):
+            for label, cfg in seq:
+                sub_ = run_unit({'scheme': p['sweep'], 'label': label, 'cfg': cfg, 'profiles': [[9], [3, 3, 3], [5, 4], [4, 4, 1], [1] * 9, [7, 2]]}, tier, seed)
+                for v in sub_['violations']:
+                    v['case']['sweep'] = True
+                core.merge(r, sub_)
+        r.count('sweep-points', len(pts))
+        return r
     name, label, cfg = p['scheme'], p['label'], p['cfg']
     classes = {}
     members = {}
-    for prof in profile_list(name, cfg, tier):
+    for prof in (p.get('profiles') or profile_list(name, cfg, tier)):
+        if not sse.valid_profile(name, cfg, prof):
+            continue
         pi = sse.pi_param(name, cfg, prof)
         for variant in (0, 1):
             case = {'scheme': name, 'label': label, 'cfg': cfg, 'profile': prof, 'variant': variant}
@@ -200,6 +215,9 @@ def diff_site(a, b):
 
 def replay(case, seed):
     r = core.Result()
+    if case.get('sweep'):
+        full = run_unit({'sweep': case['scheme']}, 'quick', seed)
+        return [v for v in full['violations'] if core.dec(v['case']).get('label') == case['label']]
     name, label, cfg = case['scheme'], case['label'], case['cfg']
     if 'class_first_profile' in case:
         a, _, _ = run_profile(r, seed, name, label, cfg, case['class_first_profile'], case['class_first_variant'])
